@@ -142,7 +142,13 @@ class StepOperationExecutor(OperationExecutor[T]):
             checkpointed_result.is_started()
             and self.config.step_semantics is StepSemantics.AT_MOST_ONCE_PER_RETRY
         ):
-            # Step was previously interrupted in a prior invocation - handle retry
+            # Step was previously interrupted in a prior invocation - handle retry.
+            # The retry strategy is user code as well: a branch whose parent context has
+            # completed in the meantime is stopped here, before the strategy is consulted.
+            self.state.raise_if_orphaned(
+                self.operation_identifier.operation_id,
+                self.operation_identifier.parent_id,
+            )
             msg: str = f"Step operation_id={self.operation_identifier.operation_id} name={self.operation_identifier.name} was previously interrupted"
             self.retry_handler(StepInterruptedError(msg), checkpointed_result)
             checkpointed_result.raise_callable_error()
